@@ -610,7 +610,7 @@ fn hadamard(n: usize) -> IM {
 
 const SQUARE_FAMILIES: &[&str] = &[
     "dense", "dense", "dense", "diag", "lower", "upper", "perm", "sperm", "orth", "lowrank_ridge",
-    "zero_lead", "neg_alt", "singular", "sym_gram", "sym_dd", "sym_indef", "sym_zero_pivot", "sym_semidef",
+    "zero_lead", "neg_alt", "graded", "singular", "sym_gram", "sym_dd", "sym_indef", "sym_zero_pivot", "sym_semidef",
 ];
 
 fn gen_square(rng: &mut StdRng, n: usize, fam: &str) -> IM {
@@ -715,6 +715,7 @@ fn gen_square(rng: &mut StdRng, n: usize, fam: &str) -> IM {
             }
             a
         }
+        "graded" => graded(rng, n, n),
         "singular" => {
             let mut a = dense(rng, n, n, c.min(4));
             if n >= 2 {
@@ -790,12 +791,23 @@ fn gen_square(rng: &mut StdRng, n: usize, fam: &str) -> IM {
     }
 }
 
-const TALL_FAMILIES: &[&str] = &["tall_dense", "tall_dense", "tall_zero_rows", "tall_dup_rows", "tall_orth", "tall_zero_lead", "tall_deficient"];
+/// rows and columns of a {-1,0,1} matrix scaled by powers of two (entries up to 16): a mild form
+/// of graded singular values that stays inside the integer range of the contract
+fn graded(rng: &mut StdRng, m: usize, n: usize) -> IM {
+    let r: Vec<u32> = (0..m).map(|_| rng.gen_range(0..=2)).collect();
+    let c: Vec<u32> = (0..n).map(|_| rng.gen_range(0..=2)).collect();
+    (0..m)
+        .map(|i| (0..n).map(|j| rnd(rng, 1) * (1i64 << (r[i] + c[j]))).collect())
+        .collect()
+}
+
+const TALL_FAMILIES: &[&str] = &["tall_dense", "tall_dense", "tall_graded", "tall_zero_rows", "tall_dup_rows", "tall_orth", "tall_zero_lead", "tall_deficient"];
 
 fn gen_tall(rng: &mut StdRng, m: usize, n: usize, fam: &str) -> IM {
     let c = cap(n.max(m.min(6)));
     match fam {
         "tall_dense" => dense(rng, m, n, c),
+        "tall_graded" => graded(rng, m, n),
         "tall_zero_rows" => {
             let mut a = dense(rng, m, n, c);
             let z = rng.gen_range(0..m);
@@ -1104,6 +1116,47 @@ fn replay(inp: &str, path: &str) {
     println!("{}", json!({"events": n}));
 }
 
+/// spec -> impl: run the real code on the inputs printed by the design models (LUModel.tla,
+/// CholeskyModel.tla) and record the model's expectation next to the real observable; the
+/// comparison itself is made by the trace specification
+fn replay_spec(inp: &str, path: &str) {
+    let lines = read_ndjson(inp);
+    let mut out = Out::create(path);
+    let mut run = 200_000i64;
+    for e in lines {
+        run += 1;
+        let a: IM = serde_json::from_value(e["A"].clone()).unwrap();
+        let am = to_mat::<f64>(&a, 0);
+        match e["kind"].as_str().unwrap() {
+            "lu" => {
+                let res = guard(|| am.lu().map(|lu| (lu.L(), lu.U(), lu.pivot())));
+                let st = status_of(&res);
+                let q = Q::new(S);
+                let got = match res {
+                    Ok(Ok((l, u, p))) => json!({"L": q.m(&rows_of(&l, 1.0)), "U": q.m(&rows_of(&u, 1.0)),
+                                                "P": intm(&rows_of(&p, 1.0)).unwrap_or_default()}),
+                    _ => json!({"L": [], "U": [], "P": []}),
+                };
+                out.emit(json!({"run": run, "ev": "LUCmp", "A": a, "status": st, "fin": q.ok(),
+                                "expect": {"L": e["L"], "U": e["U"], "P": e["P"]}, "got": got}));
+            }
+            "chol" => {
+                let res = guard(|| am.cholesky().map(|c| c.L()));
+                let st = status_of(&res);
+                let q = Q::new(S);
+                if let Ok(Ok(l)) = res {
+                    q.m(&rows_of(&l, 1.0));
+                }
+                out.emit(json!({"run": run, "ev": "CholCmp", "A": a, "status": st, "fin": st == "ok" && q.ok(),
+                                "expect": {"status": e["status"], "fin": e["fin"]}}));
+            }
+            _ => {}
+        }
+    }
+    let n = out.finish();
+    println!("{}", json!({"events": n}));
+}
+
 fn main() {
     silence_panics();
     let args: Vec<String> = std::env::args().collect();
@@ -1111,6 +1164,7 @@ fn main() {
         "gen-random" => gen_random(arg(&args, 2)),
         "gen-exhaustive" => gen_exhaustive(arg(&args, 2)),
         "replay-file" => replay(arg(&args, 2), arg(&args, 3)),
+        "replay-spec" => replay_spec(arg(&args, 2), arg(&args, 3)),
         x => {
             eprintln!("unknown sub-command {}", x);
             std::process::exit(2)
